@@ -13,8 +13,10 @@ from .c18 import run_tables
 
 CONFIGS = {
     "replay": ["DelSym_tiny.cfg"],
-    "quick": ["DelSym_tab_q.cfg", "DelSym_ver_q.cfg", "DelSym_lat_q.cfg"],
-    "thorough": ["DelSym_tab_t.cfg", "DelSym_tab3_t.cfg", "DelSym_ver_t.cfg", "DelSym_lat_t.cfg"],
+    "quick": ["DelSym_tab_q.cfg", "DelSym_ver_q.cfg", "DelSym_lat_q.cfg", "DelSym_fwd_q.cfg",
+              "DelSym_combo_q.cfg"],
+    "thorough": ["DelSym_tab_t.cfg", "DelSym_tab3_t.cfg", "DelSym_ver_t.cfg", "DelSym_lat_t.cfg",
+                 "DelSym_fwd_q.cfg", "DelSym_combo_t.cfg"],
 }
 SAMPLE = {"quick": 3000, "thorough": 30000}
 
@@ -28,7 +30,9 @@ def run(prop: str, tier: str, replay: str = None) -> int:
         prop, tier, replay, spec="DelSym.tla", trace_spec="TraceDelSym.tla",
         configs=CONFIGS, sample=SAMPLE, nontrivial=_nontrivial,
         rule=("cases = post states of DelSym.tla (format x per-symbol membership in the symbol tables, "
-              "CFI directives and expressions x version ids x deletion requests with force flags), "
+              "CFI directives and expressions x version ids x deletion requests with force flags; mode fwd: "
+              "several symbolForwarding keys sharing one value; mode combo: a retarget of the deleted "
+              "symbol registered in the same context), "
               "stratified seeded sample per generation config (tables: bounded number of features per "
               "symbol = pairwise; versions: exhaustive over id assignments; lattice: exhaustive for 3 "
               "symbols over representative features); non-trivial = the rendered module conforms to "
